@@ -108,6 +108,42 @@ fn collect_sites(e: &smtref::SExpr, sc: &smtref::Scopes, extract: bool, path: &m
     }
 }
 
+/// Paths of all sub-terms (not operator heads, indexed identifiers, sorts or binder names).
+fn term_paths(e: &smtref::SExpr, path: &mut Vec<usize>, out: &mut Vec<Vec<usize>>) {
+    match e {
+        smtref::SExpr::Atom(_) => out.push(path.clone()),
+        smtref::SExpr::List(l) => {
+            let head = l.first().and_then(|x| x.sym());
+            if head == Some("_") || head == Some("as") || l.is_empty() {
+                return; // indexed identifier / qualified identifier: not a term position
+            }
+            out.push(path.clone());
+            if head == Some("let") && l.len() == 3 {
+                if let smtref::SExpr::List(bs) = &l[1] {
+                    for (j, b) in bs.iter().enumerate() {
+                        if let smtref::SExpr::List(pair) = b {
+                            if pair.len() == 2 {
+                                path.extend([1, j, 1]);
+                                term_paths(&pair[1], path, out);
+                                path.truncate(path.len() - 3);
+                            }
+                        }
+                    }
+                }
+                path.push(2);
+                term_paths(&l[2], path, out);
+                path.pop();
+                return;
+            }
+            for (i, c) in l.iter().enumerate().skip(1) {
+                path.push(i);
+                term_paths(c, path, out);
+                path.pop();
+            }
+        }
+    }
+}
+
 fn at_path<'a>(e: &'a smtref::SExpr, path: &[usize]) -> &'a smtref::SExpr {
     let mut cur = e;
     for i in path {
@@ -487,7 +523,7 @@ impl Prop for C14 {
         crate::shim::install().map(|_| ())
     }
     fn rule(&self) -> String {
-        "(i) every SmtCommand variant and tape-decoded terms (as C05) written by serialize_cmd and read back with parse_expr / parse_command / read_command given the declared symbols: same command kind, same type, reference-evaluator equal under all (<= 10 bits) or 8 sampled assignments; (ii) random bit-vector/array model values (Bool, 1..200 bit, arrays incl. Bool index/data) printed by the independent printer in solver styles (binary, hex, true/false, store chains over as const with shadowed duplicate indices, let-bound sub-terms, extra whitespace/comments/line breaks) and read with parse_expr: value must equal the value printed; (iii) single-edit malformed variants (truncation inside a parenthesis, missing ')', extra ')', unterminated | or \") that the independent reader rejects: outcome must be Err, or Ok with the original's meaning; a panic or a different value fails; (iv) ill-sorted variants of writer output that the independent strict sort checker rejects (one operand replaced by a declared symbol of another sort; extract bounds reversed or beyond the operand): outcome must be Err, or Ok with an expression that type-checks node by node (a lenient reading such as `not` of a wider vector is not a wrong value); a panic or an ill-typed result fails; (v) end to end: SolverContext::get_value through the real SmtLibSolverCtx against the reference solver (all four profiles) with constants of Bool / 2-130 bit / array sorts pinned by assertions, the shim printing values in randomly chosen legal spellings: the value read must equal the pinned value. Non-trivial: (i) compound term with a coercion or n-ary form, (ii) array value with >= 2 stores or a let, (iii) every single-edit text; distinct by hash of the text.".into()
+        "(i) every SmtCommand variant and tape-decoded terms (as C05) written by serialize_cmd and read back with parse_expr / parse_command / read_command given the declared symbols: same command kind, same type, reference-evaluator equal under all (<= 10 bits) or 8 sampled assignments; in a third of the parse_expr cases 1-3 sub-terms N of the written text are wrapped as (let ((x N)) x), x fresh or the name of a declared symbol (shadowing), which denotes the same value: a rejection is tolerated and counted, a different value is a failure; (ii) random bit-vector/array model values (Bool, 1..200 bit, arrays incl. Bool index/data) printed by the independent printer in solver styles (binary, hex, true/false, store chains over as const with shadowed duplicate indices, let-bound sub-terms, extra whitespace/comments/line breaks) and read with parse_expr: value must equal the value printed; (iii) single-edit malformed variants (truncation inside a parenthesis, missing ')', extra ')', unterminated | or \") that the independent reader rejects: outcome must be Err, or Ok with the original's meaning; a panic or a different value fails; (iv) ill-sorted variants of writer output that the independent strict sort checker rejects (one operand replaced by a declared symbol of another sort; extract bounds reversed or beyond the operand): outcome must be Err, or Ok with an expression that type-checks node by node (a lenient reading such as `not` of a wider vector is not a wrong value); a panic or an ill-typed result fails; (v) end to end: SolverContext::get_value through the real SmtLibSolverCtx against the reference solver (all four profiles) with constants of Bool / 2-130 bit / array sorts pinned by assertions, the shim printing values in randomly chosen legal spellings: the value read must equal the pinned value. Non-trivial: (i) compound term with a coercion or n-ary form, (ii) array value with >= 2 stores or a let, (iii) every single-edit text; distinct by hash of the text.".into()
     }
     fn budget(&self, tier: Tier) -> Budget {
         match tier {
@@ -547,12 +583,56 @@ impl Prop for C14 {
                             .and_then(|b| b.strip_suffix("))"))
                             .ok_or_else(|| Failure::new("harness/c14", format!("unexpected get-value text {}", body)))?
                             .to_string();
+                        // let-wrapped variant: 1-3 sub-terms N are replaced by (let ((x N)) x), which denotes
+                        // N whatever x is - a fresh name or the name of a declared symbol (shadowing)
+                        let mut wrapped = false;
+                        let body = if t.chance(90) {
+                            match smtref::read_one(&body) {
+                                Ok(mut e) => {
+                                    let n_wraps = 1 + t.below(3);
+                                    for k in 0..n_wraps {
+                                        let mut paths = vec![];
+                                        term_paths(&e, &mut vec![], &mut paths);
+                                        if paths.is_empty() {
+                                            break;
+                                        }
+                                        let path = paths[t.below(paths.len() as u32) as usize].clone();
+                                        let name = if t.flag() && !syms.is_empty() {
+                                            let s = syms[t.below(syms.len() as u32) as usize];
+                                            ctx.get_symbol_name(s).unwrap().to_string()
+                                        } else {
+                                            format!("x!{}", k)
+                                        };
+                                        let node = at_path(&e, &path).clone();
+                                        let sym = smtref::SExpr::Atom(smtref::Atom::Symbol(name));
+                                        let letx = smtref::SExpr::List(vec![
+                                            smtref::SExpr::Atom(smtref::Atom::Symbol("let".into())),
+                                            smtref::SExpr::List(vec![smtref::SExpr::List(vec![sym.clone(), node])]),
+                                            sym,
+                                        ]);
+                                        *at_path_mut(&mut e, &path) = letx;
+                                        wrapped = true;
+                                    }
+                                    smtref::print_sexpr(&e)
+                                }
+                                Err(_) => body,
+                            }
+                        } else {
+                            body
+                        };
+                        if wrapped {
+                            rec.label("i:parse_expr/let-wrapped");
+                        }
                         match guard(|| parse_expr(ctx, &st, body.as_bytes())) {
                             Err(p) => {
                                 return Err(Failure::new(
                                     format!("smt-read/parse_expr/{}", p.class()),
                                     format!("`{}`: panic {}:{} {}", body, p.file, p.line, p.msg),
                                 ));
+                            }
+                            Ok(Err(_)) if wrapped => {
+                                // a reader may decline shadowing forms; only a wrong value is held against it
+                                rec.label("i:parse_expr/let-wrapped/rejected");
                             }
                             Ok(Err(e)) => {
                                 return Err(Failure::new(
@@ -563,7 +643,7 @@ impl Prop for C14 {
                             Ok(Ok(r)) => {
                                 if let Err(m) = equivalent(ctx, roots[0], r, &envs) {
                                     return Err(Failure::new(
-                                        format!("smt-read/parse_expr/not-equivalent/{}", refeval::op_name(&ctx[roots[0]])),
+                                        format!("smt-read/parse_expr/not-equivalent{}/{}", if wrapped { "/let-wrapped" } else { "" }, refeval::op_name(&ctx[roots[0]])),
                                         format!("`{}`: {}\noriginal: {}\nread: {}", body, m, refeval::show(ctx, roots[0]), refeval::show(ctx, r)),
                                     ));
                                 }
